@@ -1,3 +1,321 @@
-(* C20 — placeholder while the correspondence is brought up *)
-From Coq Require Import List NArith Bool.
-From FS Require Import Sx Model.Varint Model.Codec.
+(* C20 — Wire encoding and framing: the VT codec of types.Stat / types.Packet round-trips, the
+   length-prefixed byte stream is read back identical under every fragmentation, the chunked
+   metadata buffer is the concatenation of its records.
+   This file contains only the property theorems (closed by [exact]) and their
+   [Print Assumptions]; models are in Model/, proofs in Proofs/. *)
+From Coq Require Import List NArith Bool Permutation.
+From FS Require Import Sx Model.Stat Model.Varint Model.Codec Model.CodecBound Model.Framing Model.MetaBuffer
+  Model.Listing Proofs.VarintP Proofs.CodecP Proofs.CodecBoundP Proofs.FramingP Proofs.ListingP.
+From FSGen Require FromSource.
+Import ListNotations.
+Open Scope N_scope.
+
+(* ---- codec ---------------------------------------------------------------------------- *)
+
+(* Every well-formed Stat (field ranges of the Go types, map = distinct keys) encodes to bytes
+   that decode to the same value, and the decoder retains no unknown bytes. *)
+Theorem stat_roundtrip :
+  forall s, wf_stat s ->
+    decode_stat (encode_stat s) = Some s /\ decode_stat_u (encode_stat s) = Some (s, []).
+Proof. exact stat_roundtrip_proof. Qed.
+
+(* ... the same for Packet (nil / present Stat, int32 type as sign-extended varint). *)
+Theorem packet_roundtrip :
+  forall p, wf_packet p ->
+    decode_packet (encode_packet p) = Some p /\ decode_packet_u (encode_packet p) = Some (p, [], []).
+Proof. exact packet_roundtrip_proof. Qed.
+
+(* SizeVT is the length of the encoding — for every value, well-formed or not. *)
+Theorem size_correct :
+  (forall s, len (encode_stat s) = size_stat s) /\ (forall p, len (encode_packet p) = size_packet p).
+Proof. exact size_correct_proof. Qed.
+
+(* Go emits the xattr map in random iteration order: every permutation of the entries decodes
+   to the same (canonical) value, with nothing retained, and has the same length. *)
+Theorem canonical_any_order :
+  (forall s xs, wf_stat s -> Permutation xs (st_xattrs s) ->
+     decode_stat (encode_stat_ord xs s) = Some s /\ decode_stat_u (encode_stat_ord xs s) = Some (s, []) /\
+     len (encode_stat_ord xs s) = size_stat s) /\
+  (forall p xs, wf_packet p -> Permutation xs (pxattrs p) ->
+     decode_packet (encode_packet_ord xs p) = Some p /\ decode_packet_u (encode_packet_ord xs p) = Some (p, [], []) /\
+     len (encode_packet_ord xs p) = size_packet p).
+Proof. exact canonical_any_order_proof. Qed.
+
+(* The varint primitive: every uint64 is read back, whatever follows it. *)
+Theorem varint_roundtrip :
+  forall n rest, n < two64 -> get_varint (put_varint n ++ rest) = Some (n, rest).
+Proof. exact get_put_varint. Qed.
+
+(* protohelpers.SizeOfVarint's closed formula (bits.Len64(x|1)+6)/7 is the number of bytes
+   EncodeVarint writes, for every uint64. *)
+Theorem size_of_varint_formula :
+  forall v, v < two64 -> sov v = size_varint v /\ len (put_varint v) = size_varint v.
+Proof. exact (fun v H => conj (sov_is_size_varint v H) (put_varint_len v)). Qed.
+
+(* ---- arbitrary bytes --------------------------------------------------------------------- *)
+
+(* The decoders are total functions bytes -> option value ("a value or an error").  They
+   consume only their input: every field decoder returns, on success, a PROPER SUFFIX of what
+   it was given (so the loops advance and never read past the end), a retained unknown field
+   is exactly the consumed prefix, and the fuel the model gives its loops is never the reason
+   for an error: any fuel >= the input length yields the same result. *)
+Theorem decode_total_no_overread :
+  (forall l f r, dec_sfield l = Some (f, r) ->
+     (exists p, p <> [] /\ l = p ++ r) /\ (forall raw, f = SF_unknown raw -> l = raw ++ r)) /\
+  (forall l f r, dec_pfield l = Some (f, r) -> exists p, p <> [] /\ l = p ++ r) /\
+  (forall l r, skip l = Some r -> exists p, p <> [] /\ l = p ++ r) /\
+  (forall ins su b n, (length b <= n)%nat ->
+     fold_fields dec_sfield (apply_sfield ins) n b su = decode_stat_into ins su b) /\
+  (forall ins q b n, (length b <= n)%nat ->
+     fold_fields dec_pfield (apply_pfield ins) n b q = decode_packet_into ins q b) /\
+  (forall d l n, (length l <= n)%nat -> skip_loop n d l = skip_loop (length l) d l) /\
+  (forall stop cur k v n, (length cur <= n)%nat ->
+     dec_entry n stop cur k v = dec_entry (length cur) stop cur k v).
+Proof. exact decode_total_no_overread_proof. Qed.
+
+(* What a successful decode makes the receiver hold (path, linkname, xattr keys and values,
+   payload, retained unknown fields) is no larger than the input — PROVIDED no map entry's
+   key/value runs past the entry's declared length (no_overrun_*: executable predicate on
+   the input, Model/CodecBound.v). *)
+Theorem decoded_size_le_input :
+  (forall b su, decode_stat_u b = Some su -> no_overrun_stat b = true -> stat_alloc su <= len b) /\
+  (forall b x, decode_packet_u b = Some x -> no_overrun_packet b = true -> packet_alloc x <= len b).
+Proof. exact decoded_size_le_input_proof. Qed.
+
+(* The unrestricted statement
+     forall b su, decode_stat_u b = Some su -> stat_alloc su <= len b
+   is FALSE of the code: the entry loop checks key/value lengths against the end of the
+   message, then rewinds to the end of the entry and decodes the overrun bytes again.
+   Witness (corpus/C20/overrun.case, replayed on the real UnmarshalVT by every check):
+   16 bytes decode to 26, the 18-byte Packet wrapping them likewise.
+   Known finding map-entry-overrun-overallocates. *)
+Theorem decoded_size_le_input_refuted :
+  (exists b su, decode_stat_u b = Some su /\ len b = 16 /\ stat_alloc su = 26) /\
+  (exists b x, decode_packet_u b = Some x /\ len b = 18 /\ packet_alloc x = 26).
+Proof. exact decoded_size_le_input_refuted_proof. Qed.
+
+(* ---- generic protobuf runtime ------------------------------------------------------------ *)
+
+(* With valid UTF-8 in path, linkname and xattr keys the generic runtime (same wire format +
+   proto3 string validation) and the VT codec interoperate in both directions. *)
+Theorem generic_agrees :
+  (forall s, wf_stat s -> utf8_valid_stat s = true ->
+     generic_encode_stat s = Some (encode_stat s) /\
+     generic_decode_stat (encode_stat s) = Some s) /\
+  (forall p, wf_packet p -> utf8_valid_packet p = true ->
+     generic_encode_packet p = Some (encode_packet p) /\
+     generic_decode_packet (encode_packet p) = Some p).
+Proof. exact generic_agrees_proof. Qed.
+
+(* The unrestricted statement (forall wf s, generic_decode_stat (encode_stat s) = Some s) is
+   FALSE: a file name that is not UTF-8 ("a\xffb") round-trips through the VT codec and is
+   refused by the generic runtime when marshalling and when unmarshalling.
+   Known finding K2 non-utf8-string-generic-runtime (replayed by kind 2003 on every check). *)
+Theorem generic_agrees_refuted :
+  exists s, wf_stat s /\ decode_stat (encode_stat s) = Some s /\
+            generic_encode_stat s = None /\ generic_decode_stat (encode_stat s) = None.
+Proof. exact generic_agrees_refuted_proof. Qed.
+
+(* ---- framing -------------------------------------------------------------------------- *)
+
+(* Any sequence of sendable packets (any number, any sizes below 2^32 — hence also larger than
+   the 32 KiB pooled buffer —, empty packets included) written by SendMsg is read back by
+   repeated RecvMsg identical and in order and then ends cleanly (no trailing error item),
+   for EVERY way [chunks] in which the underlying reader splits the byte stream (1-byte
+   reads, reads returning 0 bytes, reads spanning several frames). *)
+Theorem recv_all_fragmentation :
+  forall msgs chunks, Forall sendable msgs ->
+    concat chunks = concat (map send_msg msgs) ->
+    recv_msgs chunks = map Some msgs.
+Proof. exact FramingP.recv_all_fragmentation. Qed.
+
+(* ... and for every map iteration order chosen independently for every frame. *)
+Theorem recv_all_fragmentation_any_order :
+  forall msgs frames chunks, Forall sendable msgs -> Forall2 frame_of msgs frames ->
+    concat chunks = concat frames -> recv_msgs chunks = map Some msgs.
+Proof. exact FramingP.recv_all_fragmentation_any_order. Qed.
+
+(* ---- buffer.go ------------------------------------------------------------------------- *)
+
+(* WriteTo of the chunked buffer emits exactly the records in allocation order, for records
+   of every size (below, at and above the chunk size). *)
+Theorem buffer_is_concat :
+  forall recs, write_to (alloc_all recs) = concat recs.
+Proof. exact FramingP.buffer_is_concat. Qed.
+
+(* No chunk ever holds more than its capacity. *)
+Theorem buffer_chunks_fit :
+  forall recs, chunks_fit (alloc_all recs).
+Proof. exact FramingP.buffer_chunks_fit. Qed.
+
+(* ---- metadata listing file (used by C19) -------------------------------------------------- *)
+
+(* The listing receive.go records — per Stat a 4-byte little-endian length followed by the VT
+   encoding — is parsed back, record by record, to exactly the recorded Stats in order.
+   listable = well-formed and SizeVT < 2^32 (the length is written as uint32(n)). *)
+Theorem listing_roundtrip :
+  forall stats, Forall listable stats ->
+    decode_listing (concat (map lframe (map encode_stat stats))) = Some stats.
+Proof. exact listing_roundtrip_proof. Qed.
+
+(* ... for every map iteration order chosen independently for every record *)
+Theorem listing_roundtrip_any_order :
+  forall stats recs, Forall listable stats -> Forall2 lrecord_of stats recs ->
+    decode_listing (concat recs) = Some stats.
+Proof. exact listing_roundtrip_any_order_proof. Qed.
+
+(* ... and through the chunked buffer of buffer.go, i.e. for the bytes of the file itself *)
+Theorem listing_file_roundtrip :
+  forall stats recs, Forall listable stats -> Forall2 lrecord_of stats recs ->
+    decode_listing (write_to (alloc_all recs)) = Some stats.
+Proof. exact listing_file_roundtrip_proof. Qed.
+
+Print Assumptions stat_roundtrip.
+Print Assumptions packet_roundtrip.
+Print Assumptions size_correct.
+Print Assumptions canonical_any_order.
+Print Assumptions varint_roundtrip.
+Print Assumptions size_of_varint_formula.
+Print Assumptions decode_total_no_overread.
+Print Assumptions decoded_size_le_input.
+Print Assumptions decoded_size_le_input_refuted.
+Print Assumptions generic_agrees.
+Print Assumptions generic_agrees_refuted.
+Print Assumptions recv_all_fragmentation.
+Print Assumptions recv_all_fragmentation_any_order.
+Print Assumptions buffer_is_concat.
+Print Assumptions buffer_chunks_fit.
+Print Assumptions listing_roundtrip.
+Print Assumptions listing_roundtrip_any_order.
+Print Assumptions listing_file_roundtrip.
+
+(* ---- non-vacuity ---------------------------------------------------------------------- *)
+
+(* a Stat with a non-UTF-8 name, max uint32s, size = int64(-1), mtime = max int64,
+   devmajor = min int64, and two xattrs (one with an empty value) *)
+Definition ex_stat : stat :=
+  {| st_path := [100; 105; 114; 47; 102; 255];
+     st_mode := 4294967295; st_uid := 4294967295; st_gid := 0;
+     st_size := 18446744073709551615;
+     st_mtime := 9223372036854775807;
+     st_linkname := [];
+     st_devmajor := 9223372036854775808; st_devminor := 1;
+     st_xattrs := [([117; 115; 101; 114; 46; 97], [1; 2; 3]); ([117; 115; 101; 114; 46; 98], [])] |}.
+
+Example ex_stat_roundtrips :
+  wf_stat ex_stat /\ decode_stat (encode_stat ex_stat) = Some ex_stat /\
+  len (encode_stat ex_stat) = 81 /\ size_stat ex_stat = 81.
+Proof. vm_compute. repeat split; reflexivity. Qed.
+
+(* the other map order gives different bytes and the same value *)
+Example ex_stat_other_order :
+  bytes_eqb (encode_stat_ord (rev (st_xattrs ex_stat)) ex_stat) (encode_stat ex_stat) = false /\
+  decode_stat (encode_stat_ord (rev (st_xattrs ex_stat)) ex_stat) = Some ex_stat.
+Proof. vm_compute. split; reflexivity. Qed.
+
+(* negative enum value (int32 -1), nested Stat, payload *)
+Definition ex_packet : packet :=
+  {| ptype := 4294967295; pstat := Some ex_stat; pid := 4294967295; pdata := [0; 255; 128] |}.
+Example ex_packet_roundtrips :
+  wf_packet ex_packet /\ decode_packet (encode_packet ex_packet) = Some ex_packet /\
+  len (encode_packet ex_packet) = size_packet ex_packet.
+Proof. vm_compute. repeat split; reflexivity. Qed.
+
+(* the decoder is not the identity on garbage: errors are reported, unknown fields are kept,
+   repeated scalars are last-wins *)
+Example ex_decoder_discriminates :
+  decode_stat [10; 5; 97] = None /\                                  (* length beyond the input *)
+  decode_stat [12] = None /\                                         (* end-group *)
+  decode_stat_u [16; 1; 16; 2; 125; 0; 0; 0; 0] =                     (* mode twice + fixed32 field 15 *)
+    Some (set_mode empty_stat 2, [125; 0; 0; 0; 0]).
+Proof. vm_compute. repeat split; reflexivity. Qed.
+
+(* the no-overrun hypothesis holds of real encodings and fails exactly on the witness; the
+   UTF-8 hypothesis separates ex_stat (name ends in \xff) from its ASCII variant *)
+Example ex_overrun_predicate :
+  no_overrun_stat (encode_stat ex_stat) = true /\ no_overrun_packet (encode_packet ex_packet) = true /\
+  no_overrun_stat overrun_witness = false /\ no_overrun_packet (18 :: 16 :: overrun_witness) = false /\
+  option_map stat_alloc (decode_stat_u overrun_witness) = Some 26.
+Proof. vm_compute. repeat split; reflexivity. Qed.
+Example ex_generic :
+  utf8_valid_stat ex_stat = false /\ generic_decode_stat (encode_stat ex_stat) = None /\
+  (let s := set_path ex_stat [100; 195; 169] in
+   wf_stat s /\ utf8_valid_stat s = true /\ generic_decode_stat (encode_stat s) = Some s).
+Proof. vm_compute. repeat split; reflexivity. Qed.
+
+(* a concrete stream: packet, empty packet (zero-length frame), packet; read one byte at a
+   time with a zero-byte read before every byte *)
+Definition ex_msgs : list packet :=
+  [ex_packet; empty_packet; {| ptype := 2; pstat := None; pid := 7; pdata := [1; 2; 3; 4; 5] |}].
+Definition ex_stream : bytes := concat (map send_msg ex_msgs).
+Example ex_fragmentation_1byte :
+  Forall sendable ex_msgs /\
+  recv_msgs (flat_map (fun b => [[]; [b]]) ex_stream) = map Some ex_msgs /\
+  recv_msgs [ex_stream] = map Some ex_msgs.
+Proof.
+  split; [repeat constructor|]. vm_compute. split; reflexivity.
+Qed.
+
+(* a truncated stream ends with an error item, never with a wrong packet *)
+Example ex_truncated :
+  recv_msgs [firstn 20 ex_stream] = [None] /\
+  recv_msgs [firstn 3 ex_stream] = [None] /\
+  recv_msgs [firstn 109 ex_stream; firstn 2 (skipn 109 ex_stream)] = [Some ex_packet; None].
+Proof. vm_compute. repeat split; reflexivity. Qed.
+
+(* a packet larger than the 32 KiB pooled buffer, cut at the pool size *)
+Definition ex_big : packet :=
+  {| ptype := 2; pstat := None; pid := 1; pdata := repeat 7 (N.to_nat 40000) |}.
+Example ex_big_packet :
+  32768 <? size_packet ex_big = true /\
+  (let s := send_msg ex_big ++ send_msg empty_packet in
+   match recv_msgs [firstn (N.to_nat 32768) s; skipn (N.to_nat 32768) s] with
+   | [Some p; Some q] =>
+     (ptype p =? 2) && (pid p =? 1) && bytes_eqb (pdata p) (pdata ex_big) &&
+     match pstat p with None => true | Some _ => false end &&
+     (ptype q =? 0) && (pid q =? 0) && bytes_eqb (pdata q) [] &&
+     match pstat q with None => true | Some _ => false end
+   | _ => false
+   end) = true.
+Proof. vm_compute. split; reflexivity. Qed.
+
+(* buffer: roll-over, a record above the chunk size, exact fill *)
+Example ex_buffer :
+  let recs := [repeat 1 (N.to_nat 32767); [2]; [3]; repeat 4 (N.to_nat 40000); []; [5]] in
+  chunk_shape (alloc_all recs) = [(32768, 32768); (1, 32768); (40000, 40000); (1, 32768)] /\
+  bytes_eqb (write_to (alloc_all recs)) (concat recs) = true.
+Proof. vm_compute. split; reflexivity. Qed.
+
+(* ---- source-derived obligation (regenerated from /repo on every run): field numbers and
+        wire types of the generated code (types/*.pb.go struct tags) are the tag bytes the
+        model encoder writes, in this order; the chunk size of buffer.go ---- *)
+Definition tags_of (fields : list (N * N * list N)) : list N :=
+  map (fun x => fst (fst x) * 8 + snd (fst x)) fields.
+Definition with_tags (tags : list N) (payloads : list bytes) : bytes :=
+  concat (map (fun tp => fst tp :: snd tp) (combine tags payloads)).
+Definition ones_stat : stat :=
+  {| st_path := [97]; st_mode := 1; st_uid := 1; st_gid := 1; st_size := 1; st_mtime := 1;
+     st_linkname := [97]; st_devmajor := 1; st_devminor := 1; st_xattrs := [([107], [118])] |}.
+Example from_source_wire_tags :
+  encode_stat ones_stat =
+    with_tags (tags_of FromSource.stat_pb_fields)
+      [[1; 97]; [1]; [1]; [1]; [1]; [1]; [1; 97]; [1]; [1]; [6; 10; 1; 107; 18; 1; 118]] /\
+  encode_packet {| ptype := 1; pstat := Some empty_stat; pid := 1; pdata := [97] |} =
+    with_tags (tags_of FromSource.packet_pb_fields) [[1]; [0]; [1]; [1; 97]] /\
+  FromSource.buffer_chunk_size = chunk_size.
+Proof. vm_compute. repeat split; reflexivity. Qed.
+
+(* a listing of three records (one of them the empty Stat: 00 00 00 00), its exact bytes for
+   the small records, and what a reader makes of cut files *)
+Example ex_listing :
+  let stats := [ex_stat; empty_stat; ones_stat] in
+  let file := concat (map lframe (map encode_stat stats)) in
+  Forall listable stats /\
+  decode_listing file = Some stats /\
+  skipn 85 file = [0; 0; 0; 0; 28; 0; 0; 0] ++ encode_stat ones_stat /\
+  decode_listing (firstn 87 file) = None /\             (* short header *)
+  decode_listing (firstn 100 file) = None /\            (* short record *)
+  decode_listing (firstn 89 file) = Some [ex_stat; empty_stat].
+Proof.
+  cbv zeta. split; [repeat constructor|]. vm_compute. repeat split; reflexivity.
+Qed.
